@@ -46,9 +46,14 @@ def cb_run(ctx, spec, K, flavor='rel', features=(), **kw):
     s = ctx.session(flavor, features)
     r = cb.run_cb(s, spec, K=K, flavor=flavor, features=features, **kw)
     ctx.traces_validated += r.get('traces_validated', 0)
-    ctx.bounds.setdefault('context_bounded_runs', []).append(
-        '%s: every schedule of its %d threads with at most %d preemptions at gated atomic steps (free switches when a thread finishes)' % (
-            spec['name'], len(spec['threads']), K))
+    if kw.get('subject'):
+        ctx.bounds.setdefault('freeze_runs', []).append(
+            '%s: the other %d thread(s) interleave with at most %d preemptions and are frozen at every gated atomic step in turn; thread %d then runs alone' % (
+                spec['name'], len(spec['threads']) - 1, K, kw['subject']))
+    else:
+        ctx.bounds.setdefault('context_bounded_runs', []).append(
+            '%s: every schedule of its %d threads with at most %d preemptions at gated atomic steps (free switches when a thread finishes)' % (
+                spec['name'], len(spec['threads']), K))
     return ctx.add(tag(r, flavor=flavor, features=features))
 
 
@@ -138,6 +143,14 @@ SPECS = {
                   'final': 'cs_final_opt_clear', 'covers': [13]},
     'opt_store': {'name': 'opt_store', 'setup': 'cs_setup_opt', 'threads': [(W0, 'cs_w_optstore_none'), (W0, 'cs_w_optswap1_r1')],
                   'final': 'cs_final_opt_store', 'covers': [13]},
+    # --- C09 freeze mode (cb.py subject=): the LAST thread is the subject; the others get frozen anywhere
+    'frz_fast': {'name': 'frz_fast', 'setup': 'cs_setup_pool', 'threads': [(W, 'c9_r_load2'), (W, 'c9_s_writer_ops')], 'covers': [13]},
+    'frz_fb': {'name': 'frz_fb', 'setup': 'cs_setup_pool2', 'threads': [('cs_fill8_t1', 'cs_r_load_only'), (W, 'c9_s_writer_ops')], 'covers': [13]},
+    'frz_wr': {'name': 'frz_wr', 'setup': 'cs_setup_pool2', 'threads': [('cs_fill8_t1', 'cs_r_load_only'), (W, 'cs_w_store_pool12'), (W, 'c9_s_writer_ops')], 'covers': [13]},
+    'frz_consume': {'name': 'frz_consume', 'setup': 'cs_setup_pool2', 'threads': [('cs_fill8_t1', 'cs_r_load_only'), (W, 'cs_w_store_pool1'), (W, 'c9_s_consume')], 'covers': [13]},
+    'frz_release': {'name': 'frz_release', 'setup': 'cs_setup_pool2', 'threads': [('cs_fill8_t1', 'cs_r_load_only'), (W, 'c9_w_store_b1'), ('c9_fill8_t2', 'c9_s_release_then_store')], 'covers': [13]},
+    'frz_cold': {'name': 'frz_cold', 'setup': 'cs_setup_pool', 'threads': [(W, 'cs_exit_t1'), (W, 'cs_w_store_pool1'), (None, 'c9_s_writer_ops')], 'covers': [13]},
+    'frz_nf': {'name': 'frz_nf', 'setup': 'nf_setup', 'threads': [('nf_warm', 'nf_r_load2'), ('nf_warm', 'nf_w_store_a2'), ('nf_warm', 'nf_s_writer_ops')], 'covers': [13]},
     # --- two containers: writer of B walks the node of a reader of A which is on the fallback path
     'iso_b': {'name': 'iso_b', 'setup': 'cs_setup2', 'threads': [('cs_fill8_t1', 'cs_r_fallback'), (W, 'cs_w_store_b3')],
               'final': 'cs_final2_release', 'covers': [13, 14]},
@@ -407,3 +420,11 @@ def c09(ctx):
         s = ctx.session('rel')
         r = conc.run_conc(s, SPECS[n], loop_bound=2, subject=subj, timeout_s=900)
         ctx.add(tag(r, flavor='rel'))
+    # freeze mode with concrete memory: the subject goes through every writer-side operation
+    ctx.bounds['freeze_mode'] = ('the other threads interleave with at most K preemptions and are then suspended for ever at an arbitrary gated atomic step '
+                                 '(or have finished); the subject thread then runs store, compare_and_swap (hit and miss), rcu, swap, load_full, guard drop '
+                                 '(and into_inner / container drop / release of 8 held guards in separate scenarios) alone; a loop iterating more than 200 times or a blocking call is the violation')
+    q = ctx.tier == 'quick'
+    for n, k in [('frz_fast', 0), ('frz_fb', 0), ('frz_wr', 0 if q else 1), ('frz_consume', 1), ('frz_release', 1), ('frz_cold', 1 if q else 2)]:
+        cb_run(ctx, SPECS[n], k, subject=len(SPECS[n]['threads']))
+    cb_run(ctx, SPECS['frz_nf'], 0 if q else 1, features=TS, subject=3)
